@@ -553,6 +553,9 @@ impl WriteBackend for LocalBackend {
                 return Err(err);
             }
         }
+        // verification hook (crash point): the temp file is complete and synced, not yet published
+        #[cfg(rustic_core_verif)]
+        verif_hooks::pre_publish(&filename_tmp, &filename);
         // rename temporary file to real file
         fs::rename(&filename_tmp, &filename).map_err(|err| {
             RusticError::with_source(
@@ -608,4 +611,35 @@ impl WriteBackend for LocalBackend {
 #[allow(missing_docs, unused_imports, dead_code, clippy::all, clippy::pedantic, clippy::nursery)]
 pub mod verif_hooks {
     use super::*;
+    use std::cell::RefCell;
+
+    type PrePublish = Box<dyn FnMut(&Path, &Path)>;
+    thread_local! {
+        static PRE_PUBLISH: RefCell<Option<PrePublish>> = const { RefCell::new(None) };
+    }
+
+    /// Install (or clear) a callback that `LocalBackend::write_bytes` invokes on the calling thread after
+    /// the temporary file is written and synced and before it is renamed to its final name.
+    pub fn set_pre_publish(f: Option<PrePublish>) {
+        PRE_PUBLISH.with(|c| *c.borrow_mut() = f);
+    }
+
+    pub(super) fn pre_publish(tmp: &Path, fin: &Path) {
+        // take the callback out while it runs so that it may itself use the backend (and may unwind)
+        let cb = PRE_PUBLISH.with(|c| c.borrow_mut().take());
+        if let Some(mut cb) = cb {
+            cb(tmp, fin);
+            PRE_PUBLISH.with(|c| {
+                let mut g = c.borrow_mut();
+                if g.is_none() {
+                    *g = Some(cb);
+                }
+            });
+        }
+    }
+
+    /// `LocalBackend::path` (private): where a file of the given type and id lives.
+    pub fn path(be: &LocalBackend, tpe: FileType, id: &Id) -> PathBuf {
+        be.path(tpe, id)
+    }
 }
